@@ -241,6 +241,12 @@ def run_shard(args):
                 {"id": 0, "op": "eq", "place": "loop", "old": "DC(-1, 2)", "obs": ["DC(a=-1, b=2)"], "sig": "F13-witness", "missing": False},
                 {"id": 1, "op": "eq", "place": "loop", "old": "defaultdict(list, {})", "obs": ["defaultdict(dict, {})"], "sig": "F17-witness", "missing": False},
                 {"id": 2, "op": "eq", "place": "loop", "old": "NT(1, 2)", "obs": ["NT(a=1, b=2)"], "sig": "F13-witness-nt", "missing": False},
+                # sites whose only pending category is update (hand-written text of a value that holds and is tight)
+                {"id": 3, "op": "le", "place": "loop", "old": "2+3", "obs": ["5", "4"], "sig": "update-only-le", "missing": False},
+                {"id": 4, "op": "ge", "place": "loop", "old": "(\n7\n)", "obs": ["7", "9"], "sig": "update-only-ge", "missing": False},
+                {"id": 5, "op": "eq", "place": "loop", "old": "[1, 1+1, 'a' 'b']", "obs": ["[1, 2, 'ab']"], "sig": "update-only-eq", "missing": False},
+                {"id": 6, "op": "in", "place": "loop", "old": "[1+2, 4]", "obs": ["3", "4"], "sig": "update-only-in", "missing": False},
+                {"id": 7, "op": "getitem", "child": "eq", "place": "loop", "old": "{'k': 1+1}", "obs": [("'k'", "2")], "sig": "update-only-getitem", "missing": False},
             ]
         src, order = program.build(sites, style="rec", tests=rng.randint(1, 3))
         files = {"test_a.py": src}
